@@ -17,11 +17,32 @@ LEVEL_TEXT = ("Proof (F/M): on the model, cherry-pick = merge3(parent C, HEAD, C
               "with the data of the fold of cherry-picks of its kept commits and conflicts exactly when the fold does. The model is tied to dolt by running "
               "dolt_cherry_pick / dolt_revert / dolt_rebase -i (edited dolt_rebase table) on generated commit trees and comparing inside Coq.")
 LEVEL_NOTE = ("Trusted: Coq kernel, Go harness + Python glue. Modelled, not verified: merge.MergeRoots is modelled by a small key-wise / cell-wise merge over "
-              "(table, pk) -> cells with integer/NULL cells and a fixed schema (schema merges, constraint violations, keyless tables, foreign keys are outside "
-              "the model and the generator); commit metadata (messages, authors) is not modelled; conflict resolution flows (--continue after conflicts) "
-              "are not exercised: an operation that stops with conflicts is observed as 'conflict'.")
+              "(table, pk) -> cells with integer/NULL cells. Round 2: conflict policies (dolt_conflicts_resolve --ours/--theirs + --continue, --abort) for cherry-pick, "
+              "revert and rebase are modelled and proved (merge_proc_spec, abort_restores, rebase2_is_fold); ADD/DROP COLUMN in the picked/reverted commit is modelled "
+              "(merge in the merged schema, dropped-vs-modified conflicts, column order not compared) and tied by the correspondence, its algebraic laws are not yet "
+              "proved (visible as comments in C31/Proofs.v). Not modelled: constraint violations, HEADs whose schema diverged from the merge base, keyless tables, "
+              "foreign keys, commit metadata, manual cell-level conflict resolution (only whole-row --ours/--theirs).")
 THEOREMS = ["get_merge3", "merge3_is_merge", "merge3_base_left_eq", "merge3_base_right_eq", "merge3_same_eq", "cherry_pick_is_merge", "revert_is_merge",
-            "revert_latest", "cherry_pick_on_parent", "rebase_is_fold", "squash_only_boundaries", "oracle_on_model"]
+            "revert_latest", "cherry_pick_on_parent", "rebase_is_fold", "squash_only_boundaries",
+            "get_resolved", "merge_proc_spec", "abort_restores", "rebase2_is_fold", "rebase_abort_restores", "smerge_proc_same_schema",
+            "oracle_on_model_partial (commit trees of one schema; schema-changing commits: correspondence only)"]
+KNOWN_KEY = "schema-merge:restored-column-value-lost-when-equal-to-cell-at-same-position"
+
+
+def match_known(finding, case, out):
+    """Known finding: reverting a DROP COLUMN on a HEAD that set another column of the same row to the value the dropped column had
+    loses the restored value (cells compared by tuple position after the column order changed).  Recognised by: a revert whose
+    result has t1's columns in an order different from the id order, and a NULL where the parent commit had a value."""
+    if finding.get("key") != KNOWN_KEY:
+        return False
+    o = out.get("obs")
+    if not o:
+        return False
+    for op, x in zip(case["ops"], o["ops"]):
+        cols = x.get("cols1") or []
+        if op["kind"] == "rv" and x["kind"] == "ok" and cols != sorted(cols, key=lambda c: COLID[c]):
+            return True
+    return False
 RULE = ("commit trees of 4-8 commits over two tables (pk, a, b) with values in {NULL,0..3} and keys 1..4, every commit changing 1-3 cells/rows of its parent "
         "(so edits overlap and conflict often); per tree 6-9 operations: cherry-pick / revert of a random commit on a random head (biased to the algebraic "
         "cases head = parent(c) and c = head) and rebase plans over the commits tip..onto with random actions, order changes and dropped steps; "
